@@ -288,8 +288,11 @@ impl DIDUrl {
     let url: RelativeDIDUrl = {
       let mut url: RelativeDIDUrl = RelativeDIDUrl::new();
       url.set_path(Some(did_url.path()))?;
-      url.set_query(did_url.query())?;
-      url.set_fragment(did_url.fragment())?;
+      // The setters strip one leading delimiter, so hand them the components with their delimiter:
+      // a query that itself starts with '?' is then kept verbatim and an empty query or fragment
+      // (`did:a:b?`, `did:a:b#`) is rejected instead of being dropped silently.
+      url.set_query(did_url.query().map(|query| format!("?{query}")).as_deref())?;
+      url.set_fragment(did_url.fragment().map(|fragment| format!("#{fragment}")).as_deref())?;
       url
     };
 
